@@ -1,7 +1,8 @@
 """Property definitions over slices of core expressions (C01-C06)."""
 from __future__ import annotations
 
-from .slicefam import SliceFamily
+from .family import Check
+from .slicefam import ExprFamily
 
 SET_OPS = ["or", "and", "sub", "inv", "flatten"]
 EVENT_OPS = ["or", "and", "sub", "inv", "flatten", "filt_leaf", "buf"]
@@ -120,11 +121,14 @@ def gen_masks(g, rng, tier, n):
         yield dict(tree=t, q=[(a, b, False)])
 
 
-C01 = SliceFamily("C01", "s", "oracle_C01", {"D1": "c_noD1"}, gen_set_slices, 3000, 40000)
-C02 = SliceFamily("C02", "s", "oracle_events", {"D1": "c_noD1", "D2": "c_noD2"}, gen_event_slices, 3000, 40000)
-C03 = SliceFamily("C03", "s", "oracle_C03", {"D1": "c_noD1", "D2": "c_noD2", "D3": "c_noD3"}, gen_all_slices, 3000, 40000)
-C04 = SliceFamily("C04", "p", "oracle_C04", {"D1": "p_noD1", "D2": "p_noD2", "D3": "p_noD3"}, gen_fwd_rev, 2500, 30000)
-C05 = SliceFamily("C05", "p", "oracle_C05", {"D1": "p_noD1", "D2": "p_noD2"}, gen_nested_windows, 2500, 30000)
-C06 = SliceFamily("C06", "s", "oracle_C06", {}, gen_masks, 3000, 40000)
+ASSUME = ["streams are finite lists; user-defined Timeline subclasses are out of scope",
+          "leaves are in-memory timelines (MemoryTimeline static storage); recurring leaves are covered by C07/C08"]
 
-FAMILIES = {"C01": C01, "C02": C02, "C03": C03, "C04": C04, "C05": C05, "C06": C06}
+CHECKS = {
+    "C01": Check("C01", [ExprFamily("C01", "s", "oracle_C01", {"D1": "c_noD1"}, gen_set_slices, 3000, 40000)], ASSUME),
+    "C02": Check("C02", [ExprFamily("C02", "s", "oracle_events", {"D1": "c_noD1", "D2": "c_noD2"}, gen_event_slices, 3000, 40000)], ASSUME),
+    "C03": Check("C03", [ExprFamily("C03", "s", "oracle_C03", {"D1": "c_noD1", "D2": "c_noD2", "D3": "c_noD3"}, gen_all_slices, 3000, 40000)], ASSUME),
+    "C04": Check("C04", [ExprFamily("C04", "p", "oracle_C04", {"D1": "p_noD1", "D2": "p_noD2", "D3": "p_noD3"}, gen_fwd_rev, 2500, 30000)], ASSUME),
+    "C05": Check("C05", [ExprFamily("C05", "p", "oracle_C05", {"D1": "p_noD1", "D2": "p_noD2"}, gen_nested_windows, 2500, 30000)], ASSUME),
+    "C06": Check("C06", [ExprFamily("C06", "s", "oracle_C06", {}, gen_masks, 3000, 40000)], ASSUME),
+}
